@@ -239,7 +239,7 @@ fi
 hook::run "$@"
 `)
 	hook := filepath.Join(dir, "hook.sh")
-	_ = os.WriteFile(hook, []byte(sb.String()), 0o755)
+	_ = writeScript(hook, []byte(sb.String()), 0o755)
 
 	run := func(mode string, start int, args []string) (string, int, bool) {
 		ctx, cancel := context.WithTimeout(context.Background(), 40*time.Second)
